@@ -82,6 +82,11 @@ TEMPLATES = [
     ('MAP uses stack below', ['list int', 'int'], [P('MAP', [P('DIP', [P('DUP')]), P('ADD')])]),
     ('MAP changes the element type', ['list int'], [P('MAP', [P('DROP'), push('string', S('x'))])], {'map_retypes': True}),
     ('MAP to pair', ['list nat'], [P('MAP', [P('DUP'), P('PAIR')])], {'map_retypes': True}),
+    ('MAP over map swaps the value pair', ['map string (pair nat int)'], [P('MAP', [P('CDR'), P('UNPAIR'), P('SWAP'), P('PAIR')])], {'map_retypes': True}),
+    ('MAP over map wraps the value', ['map int nat'], [P('MAP', [P('CDR'), P('SOME')])], {'map_retypes': True}),
+    ('MAP over map with pair keys', ['map (pair int nat) int'], [P('MAP', [P('UNPAIR'), P('CAR'), P('ADD')])]),
+    ('ITER over map', ['map int int', 'int'], [P('ITER', [P('UNPAIR'), P('ADD'), P('ADD')])]),
+    ('ITER over set', ['set int', 'int'], [P('ITER', [P('ADD')])]),
     ('LAMBDA;EXEC', ['int'], [P('LAMBDA', ty('int'), ty('int'), [push('int', I(1)), P('ADD')]), P('SWAP'), P('EXEC')]),
     ('LAMBDA;APPLY;EXEC', ['int', 'int'], [P('LAMBDA', ty('pair int int'), ty('int'), [P('UNPAIR'), P('SUB')]), P('SWAP'), P('APPLY'), P('SWAP'), P('EXEC')]),
     ('LAMBDA twice', ['int'], [P('LAMBDA', ty('int'), ty('int'), [P('DUP'), P('MUL')]), P('DUP'), P('DIP', [P('SWAP')]), P('SWAP'), P('EXEC'), P('EXEC')]),
@@ -101,6 +106,8 @@ TEMPLATES = [
     ('UPDATE 1', ['bool', 'pair int (pair nat string)'], [P('UPDATE', I(1))]),
     ('UPDATE 3', ['bool', 'pair int (pair nat string)'], [P('UPDATE', I(3))]),
     ('UPDATE 4', ['bool', 'pair int (pair nat string)'], [P('UPDATE', I(4))]),
+    ('UPDATE 1 with a pair', ['pair bool bytes', 'pair int (pair nat string)'], [P('UPDATE', I(1))]),
+    ('UPDATE 3 with a pair', ['pair bool bytes', 'pair int (pair nat string)'], [P('UPDATE', I(3))]),
     ('UPDATE 2 with a pair', ['pair bool bytes', 'pair int (pair nat string)'], [P('UPDATE', I(2))]),
     ('LEFT', ['int'], [P('LEFT', ty('nat'))]),
     ('RIGHT', ['int'], [P('RIGHT', ty('pair nat string'))]),
